@@ -585,10 +585,24 @@ func (repo *Repository) CheckHeader(ctx context.Context,
 
 	// Lookup in larger map
 	if height, exists := repo.heights[hash]; exists {
-		return height, true, nil
+		return height, repo.isInStoredLongest(ctx, hash, height), nil
 	}
 
 	return -1, false, ErrUnknownHeader
+}
+
+// isInStoredLongest returns true if the header at the specified height of the most proof of work
+// chain, read from memory or storage, has the specified hash. The larger heights map also contains
+// headers of side branches that have been pruned from memory.
+func (repo *Repository) isInStoredLongest(ctx context.Context, hash bitcoin.Hash32,
+	height int) bool {
+
+	header, err := repo.header(ctx, height)
+	if err != nil {
+		return false
+	}
+
+	return header.BlockHash().Equal(&hash)
 }
 
 // isInLongest returns true if the header with the specified hash and height is part of the most
@@ -620,6 +634,11 @@ func (repo *Repository) GetHeader(ctx context.Context,
 		header, err := repo.header(ctx, height)
 		if err != nil {
 			return nil, -1, false, err
+		}
+
+		if !header.BlockHash().Equal(&hash) {
+			// Header of a side branch that has been pruned from memory.
+			return nil, -1, false, ErrHeaderNotAvailable
 		}
 
 		return header, height, true, nil
